@@ -27,6 +27,7 @@ struct State {
     std::function<void(void *)> on_free;     // called for every free of a live pointer (before release)
     bool misaligned = false;                 // hand out 16- but not 32-byte aligned blocks
     long fail_at = -1;                       // allocation index that returns NULL (-1: never)
+    bool fail_next_malloc = false;           // the next malloc-hook call (not calloc) is refused once: injected allocator fault
     void *last_alloc = nullptr;              // most recent pointer handed out
     size_t last_alloc_size = 0;
     std::unordered_map<void *, size_t> huge;  // mmap-backed allocations
@@ -59,7 +60,7 @@ inline void *raw_alloc(size_t sz, bool zero) {
     return p;
 }
 
-inline void *t_malloc(size_t sz) { return raw_alloc(sz, false); }
+inline void *t_malloc(size_t sz) { { std::lock_guard<std::recursive_mutex> lk(mtx()); if (st().fail_next_malloc) { st().fail_next_malloc = false; return nullptr; } } return raw_alloc(sz, false); }
 inline void *t_calloc(size_t n, size_t sz) { return raw_alloc(n * sz, true); }
 inline void t_free(void *p) {
     if (!p) return;
